@@ -143,11 +143,7 @@ func vpDistribute(dir OrderDirection, n int) {
 	os, bs := vpTickOrders(dir, n)
 	// quick tier: prices 1, 0.5 and 0.01 (the distribution loops fork a lot); thorough: six prices for two orders
 	// (the whole grid of eleven took 19 minutes for the buy side alone), two prices for three orders
-	tp := 6
-	if n > 2 {
-		tp = 2
-	}
-	p := vpGridPriceN(3, tp)
+	p := vpGridPriceN(3, 6)
 	amt := zzvp.AnySdkInt()
 	total := TotalMatchableAmount(os, p)
 	// the callers' precondition (DistributeOrderAmountToTick): 0 < amt < matchable amount of the group
@@ -186,20 +182,57 @@ func vpDistribute(dir OrderDirection, n int) {
 
 func VP_C05_DistributeSell2() { vpDistribute(Sell, 2) }
 func VP_C05_DistributeBuy2()  { vpDistribute(Buy, 2) }
-func VP_C05_DistributeSell3() {
+// Three orders in the group (thorough tier). Fully symbolic, three orders ran for more than an hour per side; here two
+// untouched orders have amounts from a grid, the third is an untouched order of any amount up to 10^9 and the distributed
+// amount is symbolic; two prices (with a third order in any consistent state the run did not finish in 40 minutes).
+func vpDistribute3(dir OrderDirection) {
 	if !zzvp.Thorough() {
 		zzvp.Option("thorough-only")
 		return
 	}
-	vpDistribute(Sell, 3)
-}
-func VP_C05_DistributeBuy3() {
-	if !zzvp.Thorough() {
-		zzvp.Option("thorough-only")
-		return
+	zzvp.Option("no-region-merge")
+	p := vpGridPriceN(2, 2)
+	grid := [][2]int64{{1000, 1000}, {300, 700}, {1, 1000000}}
+	g := grid[zzvp.Choose(len(grid))]
+	fresh := func(a sdkmath.Int) *BaseOrder { return NewBaseOrder(dir, p, a, OfferCoinAmount(dir, p, a)) }
+	c := zzvp.AnySdkInt()
+	zzvp.Assume(c.IsPositive() && c.LTE(sdkmath.NewInt(1000000000)))
+	bs := []*BaseOrder{fresh(sdkmath.NewInt(g[0])), fresh(sdkmath.NewInt(g[1])), fresh(c)}
+	var os []Order
+	for _, o := range bs {
+		os = append(os, o)
 	}
-	vpDistribute(Buy, 3)
+	amt := zzvp.AnySdkInt()
+	zzvp.Assume(amt.IsPositive() && amt.LT(TotalMatchableAmount(os, p)))
+	zzvp.Assume(p.MulInt(amt).TruncateInt().IsPositive())
+	var before []vpSnap
+	var cap []sdkmath.Int
+	for _, o := range bs {
+		before = append(before, vpSnapOf(o))
+		cap = append(cap, MatchableAmount(o, p))
+	}
+	SortOrders(os)
+	diff := DistributeOrderAmountToOrders(os, amt, p)
+	zzvp.Reach("distributed-3")
+	sum, q := sdkmath.ZeroInt(), sdkmath.ZeroInt()
+	for i, o := range bs {
+		f := vpFillLaws(o, before[i], p, "")
+		zzvp.Assert(f.LTE(cap[i]), "never-filled-beyond-its-matchable-amount")
+		sum = sum.Add(f)
+		if dir == Buy {
+			q = q.Add(o.PaidOfferCoinAmount.Sub(before[i].paid))
+		} else {
+			q = q.Sub(o.ReceivedDemandCoinAmount.Sub(before[i].recv))
+		}
+	}
+	zzvp.Assert(sum.LTE(amt), "the-group-never-takes-more-than-the-distributed-amount")
+	zzvp.Assert(zzvp.ZD(p).Mul(zzvp.ZI(amt.Sub(sum))).LT(zzvp.Pow10(18).Mul(zzvp.ZN(3))), "shortfall-worth-less-than-one-quote-unit-per-order")
+	zzvp.Assert(sum.Equal(amt), "the-group-takes-exactly-the-distributed-amount") // sell side: known finding D21
+	zzvp.Assert(diff.Equal(q), "quote-diff-is-the-sum-over-the-fills")
 }
+
+func VP_C05_DistributeSell3() { vpDistribute3(Sell) }
+func VP_C05_DistributeBuy3()  { vpDistribute3(Buy) }
 
 // C16: the final loop of DistributeOrderAmountToOrders ranges over a Go map. Its result must not depend on the
 // iteration order: the same symbolic inputs are run under insertion order and under the reverse order and every
